@@ -812,4 +812,5 @@ pub const PROP: Prop = Prop {
         "with loader faults the entry promise may reject with any one of the injected errors",
     ],
     nondeterminism_is_violation: false,
+    hang_is_violation: true,
 };
